@@ -1,6 +1,8 @@
 package main
 
 import (
+	"os"
+	"path/filepath"
 	"context"
 	"fmt"
 	"strings"
@@ -84,6 +86,14 @@ var c07TimedShapes = []c07Timed{
 	{"timed:tree-recursion-in-handler", "(do (def tr (fn [n] (if (> n 40) 1 (+ (tr (+ n 1)) (tr (+ n 1)))))) (try (throw 1) (catch e (try (tr 0) (catch e2 (tr 0))))))", false, false},
 	{"timed:atom-read-behind-busy-future", "(do (def a (atom 0)) (def f (future (swap! a (fn [x] (do (sleep 100000) x))))) (sleep 5) @a)", false, false},
 	{"timed:map-over-sleeps", "(map (fn [x] (sleep 100000)) [1 2 3])", true, false},
+	// the never-ending part is reached through eval / read-string / load-file: the caller's context must travel along
+	{"timed:loop-through-eval", "(eval '(do (def lp (fn [n] (lp (+ n 1)))) (lp 0)))", true, false},
+	{"timed:sleep-through-eval-read-string", "(eval (read-string \"(sleep 100000)\"))", true, false},
+	{"timed:handler-re-enters-eval", "(try (throw 1) (catch e (eval '(sleep 100000))))", true, false},
+	{"timed:loop-through-load-file", "(load-file \"@LOOPFILE@\")", true, false},
+	// a future created by an EARLIER evaluation (under no deadline) and dereferenced by this one
+	{"timed:deref-future-of-an-earlier-evaluation", "@earlier", true, false},
+	{"timed:deref-earlier-future-inside-try", "(try @earlier (catch e (do (trace! :handler) @earlier)))", false, true},
 }
 
 func runC07(tier string, seed uint64, rep *Report) {
@@ -133,12 +143,29 @@ func runC07(tier string, seed uint64, rep *Report) {
 	mergeHist(rep, g.Hist)
 	// ---- B
 	const bound = 400 * time.Millisecond
+	tmp, err := os.MkdirTemp("", "c07files")
+	if err != nil {
+		panic(err)
+	}
+	defer os.RemoveAll(tmp)
+	loopFile := filepath.Join(tmp, "loop.lisp")
+	if err := os.WriteFile(loopFile, []byte("(def lp (fn [n] (lp (+ n 1))))\n(lp 0)\n"), 0o644); err != nil {
+		panic(err)
+	}
 	for round := 0; round < nB; round++ {
 		for si, sh := range c07TimedShapes {
 			w, _ := NewWorld()
-			ast, err := lisp.READ(sh.src, nil, w.Env)
+			src := strings.ReplaceAll(sh.src, "@LOOPFILE@", loopFile)
+			if strings.Contains(src, "earlier") {
+				// an evaluation under context.Background() leaves a sleeping future behind
+				if o := w.EvalText(context.Background(), "(def earlier (future (sleep 100000)))"); o.Err != nil || o.Panic != nil {
+					panic(fmt.Sprint("harness: ", o.Err, o.Panic))
+				}
+				defer w.EvalText(context.Background(), "(future-cancel earlier)")
+			}
+			ast, err := lisp.READ(src, nil, w.Env)
 			if err != nil {
-				panic("harness: " + sh.src + ": " + err.Error())
+				panic("harness: " + src + ": " + err.Error())
 			}
 			d := time.Duration(40+r.Intn(120)) * time.Millisecond
 			// how the context ends: its own deadline; an outside cancel with no deadline at all; an outside cancel
